@@ -11,6 +11,9 @@ use std::panic::AssertUnwindSafe;
 use duke::tree::class::ClassFile;
 use duke::tree::method::code::{Code, Instruction, Label, LabelRange};
 use duke::tree::type_annotation::TargetInfoCode;
+use fbh::classfile::asm::{assemble, try_assemble, Enc, Knobs};
+use fbh::classfile::facts::{facts_from_duke, facts_from_raw, ClassFacts, CodeFacts, FactGroup, InsnG, OperandG};
+use fbh::classfile::gen::{self, gen_class, GenCfg};
 use fbh::classfile::raw::{self, AttrInfo, Operands, TargetInfo};
 use fbh::prng::Rng;
 use fbh::report::{guarded, Report};
@@ -291,6 +294,51 @@ fn sem_check(code: &Code, rc: &raw::CodeAttr) -> Result<Vec<u32>, String> {
 	Ok(pos)
 }
 
+fn opposite_name(op: &str) -> Option<&'static str> {
+	Some(match op {
+		"ifeq" => "ifne", "ifne" => "ifeq", "iflt" => "ifge", "ifge" => "iflt", "ifgt" => "ifle", "ifle" => "ifgt",
+		"if_icmpeq" => "if_icmpne", "if_icmpne" => "if_icmpeq", "if_icmplt" => "if_icmpge", "if_icmpge" => "if_icmplt",
+		"if_icmpgt" => "if_icmple", "if_icmple" => "if_icmpgt", "if_acmpeq" => "if_acmpne", "if_acmpne" => "if_acmpeq",
+		"ifnull" => "ifnonnull", "ifnonnull" => "ifnull", _ => return None,
+	})
+}
+
+/// The property allows a conditional whose offset no longer fits 16 bits to be written as the
+/// inverted condition over a `goto_w`.  Where the tree has conditional `c T` and the written code
+/// has `opposite(c) -> (the instruction after the next); goto T'`, contract the pair back to
+/// `c T'` and renumber every position of the written method accordingly.  A position that
+/// designates the inner goto cannot be renumbered: that is an error.
+fn contract_trampolines(tree: &CodeFacts, out: &CodeFacts) -> Result<CodeFacts, String> {
+	let n = out.insns.len();
+	let mut map: Vec<Option<usize>> = vec![None; n + 1];
+	let mut insns: Vec<InsnG<usize>> = Vec::with_capacity(tree.insns.len());
+	let (mut j, mut k) = (0usize, 0usize);
+	while j < n {
+		let o = &out.insns[j];
+		let is_tramp = match (tree.insns.get(k), out.insns.get(j + 1)) {
+			(Some(t), Some(g)) => opposite_name(t.op) == Some(o.op) && matches!(t.arg, OperandG::Branch(_)) && o.arg == OperandG::Branch(j + 2) && g.op == "goto" && matches!(g.arg, OperandG::Branch(_)),
+			_ => false,
+		};
+		map[j] = Some(k);
+		if is_tramp {
+			insns.push(InsnG { op: tree.insns[k].op, arg: out.insns[j + 1].arg.clone() });
+			j += 2;
+		} else { insns.push(o.clone()); j += 1; }
+		k += 1;
+	}
+	map[n] = Some(k);
+	let mut c = out.clone();
+	c.insns = insns;
+	c.map_pos(&mut |p: &usize| map.get(*p).copied().flatten().ok_or_else(|| format!("position {p} of the written method designates the goto_w inside a trampoline")))
+}
+fn contract_class(tree: &ClassFacts, out: &ClassFacts) -> Result<ClassFacts, String> {
+	let mut o = out.clone();
+	for (tm, om) in tree.methods.iter().zip(o.methods.iter_mut()) {
+		if let (Some(tc), Some(oc)) = (&tm.code, &om.code) { if tc.insns.len() != oc.insns.len() { om.code = Some(contract_trampolines(tc, oc)?); } }
+	}
+	Ok(o)
+}
+
 fn has_frames(code: &Code) -> bool { code.instructions.iter().any(|e| e.frame.is_some()) }
 fn unique_labels(code: &Code) -> bool {
 	let mut seen = std::collections::HashSet::new();
@@ -303,27 +351,66 @@ fn replay_text(what: &str, desc: &str, orig: &[u8]) -> String {
 	format!("property C02\nwhat: {what}\ninput: {desc}\nclass file (hex): {shown}\nsteps: duke::read_class(bytes) -> duke::write_class(tree) -> strict parse / compare\n")
 }
 
-struct Run<'a> { r: &'a mut Report, cases_left: usize, pool_left: usize, ldc_left: usize }
+struct Run<'a> { r: &'a mut Report, cases_left: usize, per_stream: HashMap<String, usize>, cap: usize, pool_left: usize, ldc_left: usize, rename_left: usize, frames_left: usize, bsm_left: usize, pool_per_stream: HashMap<String, usize>, ldc_per_stream: HashMap<String, usize> }
 
 /// one class through everything.  `mutate` may modify the tree after reading (hypothesis-violating streams).
 fn through(run: &mut Run, stream: &str, desc: &str, orig: &[u8], mutate: Option<&dyn Fn(&mut ClassFile)>) {
-	let r = &mut *run.r;
 	let mut tree = match impl_read(orig) {
 		Ok(Ok(t)) => t,
-		Ok(Err(_)) => { r.count("reader_rejected"); return; }
-		Err(_) => { r.count("reader_panicked"); return; }
+		Ok(Err(_)) => { run.r.count("reader_rejected"); return; }
+		Err(_) => { run.r.count("reader_panicked"); return; }
 	};
 	if let Some(f) = mutate { f(&mut tree); }
+	through_tree(run, stream, desc, orig, &tree, mutate.is_none());
+	// the same class after a simple renaming of the class, its fields and its methods
+	if mutate.is_none() && run.rename_left > 0 {
+		run.rename_left -= 1;
+		let renamed = rename(&tree);
+		through_tree(run, &format!("{stream}+renamed"), &format!("{desc} (class, field and method names renamed)"), orig, &renamed, true);
+	}
+}
+
+/// a tree edited after reading in a way that keeps the hypotheses of the theorems (unique labels, well-formed
+/// switches): the full oracle applies
+fn through_edited(run: &mut Run, stream: &str, desc: &str, orig: &[u8], edit: &dyn Fn(&mut ClassFile)) {
+	let mut tree = match impl_read(orig) { Ok(Ok(t)) => t, _ => { run.r.count("reader_rejected"); return; } };
+	edit(&mut tree);
+	through_tree(run, stream, desc, orig, &tree, true);
+}
+
+fn rename(t: &ClassFile) -> ClassFile {
+	use duke::tree::class::ObjClassName;
+	use duke::tree::field::FieldName;
+	use duke::tree::method::MethodName;
+	let mut t = t.clone();
+	let js = |s: &java_string::JavaStr, suffix: &str| { let mut o = s.to_owned(); o.push_str(suffix); o };
+	if t.name.as_inner() != java_string::JavaStr::from_str("module-info") {
+		t.name = unsafe { ObjClassName::from_inner_unchecked(js(t.name.as_inner(), "_R")) };
+	}
+	for f in &mut t.fields { f.name = unsafe { FieldName::from_inner_unchecked(js(f.name.as_inner(), "_r")) }; }
+	for m in &mut t.methods {
+		if !m.name.as_inner().starts_with('<') { m.name = unsafe { MethodName::from_inner_unchecked(js(m.name.as_inner(), "_r")) }; }
+	}
+	t
+}
+
+fn through_tree(run: &mut Run, stream: &str, desc: &str, orig: &[u8], tree: &ClassFile, from_reading: bool) {
+	let t0 = std::time::Instant::now();
+	through_tree_(run, stream, desc, orig, tree, from_reading);
+	let dt = t0.elapsed().as_millis() as u64;
+	run.r.count_n(&format!("ms_{}", stream.split('+').next().unwrap_or(stream)), dt);
+}
+fn through_tree_(run: &mut Run, stream: &str, desc: &str, orig: &[u8], tree: &ClassFile, from_reading: bool) {
+	let r = &mut *run.r;
 	let n_code = tree.methods.iter().filter(|m| m.code.is_some()).count();
 	let new = r.eval(&format!("{stream}:{desc}:{}", hex(&orig[..orig.len().min(64)])), n_code > 0);
 	let _ = new;
-	let res = impl_write(&tree);
-	let from_reading = mutate.is_none();
+	let res = impl_write(tree);
 	let mut parsed: Option<raw::RawClass> = None;
 	if !from_reading {
 		// outside the property's quantifier: only the correspondence with the model is checked
 		match &res {
-			Err(_) => r.count("mutated_write_panicked"),
+			Err(p) => { r.count("mutated_write_panicked"); r.notes.push(format!("mutated tree ({desc}): write_class panicked: {p}")); }
 			Ok(Err(_)) => r.count("mutated_write_err"),
 			Ok(Ok(out)) => { r.count("mutated_write_ok"); parsed = raw::parse(out).ok(); }
 		}
@@ -346,13 +433,37 @@ fn through(run: &mut Run, stream: &str, desc: &str, orig: &[u8], mutate: Option<
 								if let Err(e) = sem_check(c, rcode) {
 									r.violation(format!("method {mi}: {e}"), replay_text(&format!("method {mi}: {e}"), desc, orig));
 								}
-								if has_frames(c) && !rcode.attributes.iter().any(|a| matches!(a.info, AttrInfo::StackMapTable(_))) {
-									r.known("F14 stack map frames of the tree are not written".into());
-									r.count("F14_frames_dropped");
+								if has_frames(c) && !rcode.attributes.iter().any(|a| matches!(a.info, AttrInfo::StackMapTable(_))) { r.count("F14_frames_dropped"); }
+								if run.frames_left > 0 && c.instructions.len() <= 400 {
+									run.frames_left -= 1;
+									let written = rcode.attributes.iter().map(|a| if let AttrInfo::StackMapTable(v) = &a.info { v.len() } else { 0 }).sum::<usize>();
+									let fs: Vec<String> = c.instructions.iter().enumerate().map(|(k, e)| if e.frame.is_some() { format!("Some {k}") } else { "None".into() }).collect();
+									r.case("frames", format!("CFrames [{}] {written}", fs.join(";")));
 								}
 							}
 							(None, None) => {}
 							_ => r.violation(format!("method {mi}: Code attribute presence differs"), replay_text("Code attribute presence differs", desc, orig)),
+						}
+					}
+					// the facts of the tree and the facts an independent parser reads back
+					let tf = facts_from_duke(tree);
+					match facts_from_raw(&rc) {
+						Err(e) => r.violation(format!("written class: {e}"), replay_text(&format!("facts of the written class cannot be built: {e}"), desc, orig)),
+						Ok(of) => {
+							let of = match contract_class(&tf, &of) { Ok(x) => x, Err(e) => { r.violation(format!("written class: {e}"), replay_text(&e, desc, orig)); of } };
+							if tf != of {
+								let groups = tf.differing_groups(&of);
+								let frames_only = groups.iter().all(|g| *g == FactGroup::Frames);
+								let tree_has_frames = tree.methods.iter().any(|m| m.code.as_ref().map_or(false, has_frames));
+								if frames_only && tree_has_frames && tf.without_frames() == of.without_frames() {
+									r.known("F14 stack map frames of the tree are not written".into());
+								} else {
+									let lines = tf.without_frames().diff(&of.without_frames());
+									let shown: Vec<String> = lines.iter().take(6).cloned().collect();
+									r.violation(format!("facts read back from the written class differ from the tree (tree != written): {}", shown.join(" | ")),
+										replay_text(&format!("facts differ in groups {:?}: {}", groups, shown.join(" | ")), desc, orig));
+								}
+							} else { r.count("facts_equal"); }
 						}
 					}
 					parsed = Some(rc);
@@ -361,9 +472,10 @@ fn through(run: &mut Run, stream: &str, desc: &str, orig: &[u8], mutate: Option<
 		}
 	}
 	}
-	// correspondence, method by method
-	if n_code == 0 || run.cases_left == 0 { return; }
-	let plain = match plain_bytes(&tree) { Ok(p) => p, Err(e) => { r.count("probe_failed"); r.notes.push(format!("probe failed ({stream}): {e}")); r.notes.truncate(20); return; } };
+	// correspondence, method by method (names do not enter the layout-level model: not repeated for the renamed tree)
+	if n_code == 0 || run.cases_left == 0 || stream.ends_with("+renamed") { return; }
+	if *run.per_stream.get(stream).unwrap_or(&0) >= run.cap { return; }
+	let plain = match plain_bytes(tree) { Ok(p) => p, Err(e) => { r.count("probe_failed"); r.notes.push(format!("probe failed ({stream}): {e}")); r.notes.truncate(20); return; } };
 	// when the write failed as a whole we can attribute the failure to a method only if exactly one method has code
 	for (mi, m) in tree.methods.iter().enumerate() {
 		let Some(c) = &m.code else { continue };
@@ -389,6 +501,7 @@ fn through(run: &mut Run, stream: &str, desc: &str, orig: &[u8], mutate: Option<
 		};
 		if run.cases_left == 0 { break; }
 		run.cases_left -= 1;
+		*run.per_stream.entry(stream.to_string()).or_insert(0) += 1;
 		r.count(&format!("case_insns_{}", match c.instructions.len() { 0..=9 => "1-9", 10..=99 => "10-99", 100..=999 => "100-999", 1000..=9999 => "1k-10k", _ => "10k+" }));
 		r.count(match ans { Answer::Ok(..) => "answer_ok", Answer::Err => "answer_err", Answer::Panic => "answer_panic" });
 		let widened = a.ents.iter().filter(|e| matches!(e.1, Ent::Cond { .. } | Ent::Jump { .. })).count();
@@ -404,7 +517,14 @@ fn through(run: &mut Run, stream: &str, desc: &str, orig: &[u8], mutate: Option<
 			if !seen.insert(key.clone()) { r.violation(format!("constant pool of the written class holds {key} twice"), replay_text("duplicate pool entry", desc, orig)); }
 			es.push(format!("(Build_pentry {} {})", c.is_two_slot(), gbytes(key.as_bytes())));
 		}
-		if run.pool_left > 0 && es.len() <= 400 { run.pool_left -= 1; r.case("pool", format!("CPool [{}] {}", es.join(";"), rc.pool.len())); }
+		if let Some(bm) = rc.bootstrap_methods() {
+			let mut seen = std::collections::HashSet::new();
+			let keys: Vec<String> = bm.iter().map(|b| format!("{b:?}")).collect();
+			for k in &keys { if from_reading && !seen.insert(k.clone()) { r.violation(format!("BootstrapMethods table of the written class holds {k} twice"), replay_text("duplicate bootstrap method", desc, orig)); } }
+			if run.bsm_left > 0 && !keys.is_empty() && keys.len() <= 200 { run.bsm_left -= 1; r.case("bootstrap", format!("CBsm [{}]", keys.iter().map(|k| gbytes(k.as_bytes())).collect::<Vec<_>>().join(";"))); }
+		}
+		let pps = run.pool_per_stream.entry(stream.to_string()).or_insert(0);
+		if run.pool_left > 0 && es.len() <= 400 && *pps < 8 { *pps += 1; run.pool_left -= 1; r.case("pool", format!("CPool [{}] {}", es.join(";"), rc.pool.len())); }
 		for m in &rc.methods {
 			if let Some(c) = code_of(m) {
 				if let Ok(insns) = raw::decode_code(&c.code) {
@@ -412,7 +532,8 @@ fn through(run: &mut Run, stream: &str, desc: &str, orig: &[u8], mutate: Option<
 						if let (Operands::Pool(x), 18..=20) = (&i.operands, i.opcode) {
 							let two = i.opcode == 20;
 							if !two && (i.opcode == 18) != (*x <= 255) { r.violation(format!("ldc form {} for pool index {x}", i.opcode), replay_text("ldc threshold", desc, orig)); }
-							if run.ldc_left > 0 { run.ldc_left -= 1; r.case("ldc", format!("CLdc {two} {x} {}", i.opcode)); }
+							let lps = run.ldc_per_stream.entry(stream.to_string()).or_insert(0);
+							if run.ldc_left > 0 && *lps < 14 { *lps += 1; run.ldc_left -= 1; r.case("ldc", format!("CLdc {two} {x} {}", i.opcode)); }
 						}
 					}
 				}
@@ -549,7 +670,7 @@ pub fn run(ctx: &Ctx) -> anyhow::Result<Report> {
 	r.shard_size = 24;
 	let mut rng = Rng::new(ctx.seed);
 	r.rule = "class files (assembled boundary constructions, random near-boundary methods, javac corpus) -> duke::read_class -> duke::write_class; oracle: the independent strict parser must accept the output and every branch/switch arm/exception range/table pc must designate the image of the same tree instruction; correspondence: every method body abstracted to the layout level (plain instruction bytes taken from a probe write in which label-carrying instructions are nops) and the Coq model of write_code compared byte for byte with the written code array and tables. Non-trivial = the class has at least one method with code; distinct by stream, description and class prefix.".into();
-	let mut run = Run { r: &mut r, cases_left: if ctx.thorough { 6000 } else { 900 }, pool_left: if ctx.thorough { 300 } else { 60 }, ldc_left: if ctx.thorough { 600 } else { 120 } };
+	let mut run = Run { r: &mut r, cases_left: if ctx.thorough { 9000 } else { 1100 }, per_stream: HashMap::new(), cap: if ctx.thorough { 1500 } else { 230 }, pool_left: if ctx.thorough { 300 } else { 60 }, ldc_left: if ctx.thorough { 600 } else { 120 }, rename_left: if ctx.thorough { 4000 } else { 400 }, frames_left: if ctx.thorough { 400 } else { 80 }, bsm_left: if ctx.thorough { 300 } else { 60 }, pool_per_stream: HashMap::new(), ldc_per_stream: HashMap::new() };
 
 	let grow = 300usize; // fields: String constant lands beyond index 255 in the written pool
 	let one = |m: MiniMethod, nf: usize| MiniClass { n_fields: nf, methods: vec![m] };
@@ -631,15 +752,59 @@ pub fn run(ctx: &Ctx) -> anyhow::Result<Report> {
 		};
 		through(&mut run, "not-from-reading", &format!("mutated tree kind {kind} #{i}"), &b, Some(&f));
 	}
-	// 8. corpus
-	let mut files = vec![];
-	for dir in ["/verif/corpus/classes", "/verif/corpus/C02"] { collect(std::path::Path::new(dir), &mut files); }
-	files.sort();
-	let take = if ctx.thorough { files.len() } else { files.len().min(150) };
-	for p in files.iter().take(take) {
-		if let Ok(b) = std::fs::read(p) { through(&mut run, "corpus", &p.display().to_string(), &b, None); }
+	// 8. classes generated by the shared class-file generator (every attribute kind, every constant
+	//    kind, every general instruction), assembled under several layouts
+	let n_gen = if ctx.thorough { 1200 } else { 160 };
+	let cfg = GenCfg::default();
+	for i in 0..n_gen {
+		let spec = gen_class(&mut rng, &cfg);
+		let fam = Knobs::family(ctx.seed ^ i as u64);
+		let k = &fam[rng.below(fam.len())];
+		match try_assemble(&spec, k) { Ok(b) => through(&mut run, "generated", &format!("gen_class #{i} seed {} knobs {:?}", ctx.seed, k), &b, None), Err(_) => run.r.count("generator_rejected") }
 	}
-	r.count_n("corpus_files", take as u64);
+	// 9. the shared boundary constructions
+	{
+		use gen::boundary as bd;
+		let ops: &[&'static str] = if ctx.thorough { &["ifeq", "if_icmplt", "ifnonnull", "goto", "jsr"] } else { &["ifeq", "goto"] };
+		for &op in ops {
+			for d in [32766i32, 32767, 32768, 32769, 32770, -32766, -32767, -32768, -32769, -32770] {
+				let (spec, k) = bd::branch_distance(op, d);
+				if let Ok(b) = try_assemble(&spec, &k) { through(&mut run, "shared-boundary", &format!("branch_distance {op} {d}"), &b, None); }
+			}
+		}
+		for kk in [2usize, 5] { let b = assemble(&bd::branch_chain(kk, 32767), &Knobs::default()); through(&mut run, "shared-boundary", &format!("branch_chain {kk} 32767"), &b, None); }
+		through(&mut run, "shared-boundary", "switch_alignments", &assemble(&bd::switch_alignments(), &Knobs::default()), None);
+		through(&mut run, "shared-boundary", "switch_alignments widest", &assemble(&bd::switch_alignments(), &Knobs { enc: Enc::Widest, ..Default::default() }), None);
+		for (j, k) in bd::pool_crossing_knobs().iter().enumerate() { if ctx.thorough || j % 3 == 0 { through(&mut run, "shared-boundary", &format!("pool_crossing 40 knobs #{j}"), &assemble(&bd::pool_crossing(40), k), None); } }
+		through(&mut run, "shared-boundary", "locals_crossing", &assemble(&bd::locals_crossing(), &Knobs::default()), None);
+		through(&mut run, "shared-boundary", "locals_crossing widest", &assemble(&bd::locals_crossing(), &Knobs { enc: Enc::Widest, ..Default::default() }), None);
+		for len in [65533usize, 65534, 65535] { through(&mut run, "shared-boundary", &format!("code_length {len}"), &assemble(&bd::code_length(len), &Knobs::default()), None); }
+		through(&mut run, "shared-boundary", "code_length_ending_in_branch", &assemble(&bd::code_length_ending_in_branch(), &Knobs::default()), None);
+		through(&mut run, "shared-boundary", "all_instructions", &assemble(&bd::all_instructions(), &Knobs::default()), None);
+		through(&mut run, "shared-boundary", "all_instructions widest", &assemble(&bd::all_instructions(), &Knobs { enc: Enc::Widest, ..Default::default() }), None);
+		if ctx.thorough {
+			let spec = bd::pool_crossing(10);
+			for front in [true, false] { if let Ok(k) = bd::pool_full_knobs(&spec, front) { through(&mut run, "shared-boundary", &format!("pool full front={front}"), &assemble(&spec, &k), None); } }
+		}
+		// the chain with one instruction inserted after reading: every conditional is now one byte too far
+		for kk in [2usize, 5] {
+			let b = assemble(&bd::branch_chain(kk, 32767), &Knobs::default());
+			for at in [kk, kk + 100] {
+				let f = move |t: &mut ClassFile| { if let Some(c) = t.methods.get_mut(0).and_then(|m| m.code.as_mut()) {
+					c.instructions.insert(at, duke::tree::method::code::InstructionListEntry { label: None, frame: None, instruction: Instruction::Nop }); } };
+				through_edited(&mut run, "chain-grown", &format!("branch_chain {kk} 32767 with a nop inserted at instruction {at}"), &b, &f);
+			}
+		}
+	}
+	// 10. corpus
+	let mut files = fbh::classfile::corpus::corpus_classes();
+	let mut extra = vec![]; collect(std::path::Path::new("/verif/corpus/C02"), &mut extra); extra.sort();
+	for p in extra { if let Ok(b) = std::fs::read(&p) { files.push((p.display().to_string(), b)); } }
+	let take = if ctx.thorough { files.len() } else { files.len().min(190) };
+	let step = if ctx.thorough { 1 } else { (files.len() / take.max(1)).max(1) };
+	let mut n_corpus = 0u64;
+	for (name, b) in files.iter().step_by(step) { through(&mut run, "corpus", name, b, None); n_corpus += 1; }
+	r.count_n("corpus_files", n_corpus);
 	// spread the 65535-byte methods evenly over the shards
 	let mut sh = Rng::new(ctx.seed ^ 0xC02);
 	sh.shuffle(&mut r.cases);
